@@ -1,5 +1,6 @@
 import RsMatterVerif.Lemmas.Tlv
 import RsMatterVerif.Lemmas.TlvRound
+import RsMatterVerif.Lemmas.TlvReencIter
 import RsMatterVerif.Lemmas.TlvSchema
 /-!
 # C16 — the TLV codec round-trips every value and rejects every malformed input safely
@@ -133,6 +134,17 @@ theorem len_within (bs : Bytes) (n : Nat) (h : containerLen bs = .ok n) : n ≤ 
 
 example : containerLen [0x15, 0x24, 0x01, 0x05, 0x18, 0xff] = .ok 5 := by decide
 
+/-- for a **container** the length computed by the `container_value_len` walk already lies within the
+input — independently of the final bounds check of `container_len` (which is what rejects over-long
+*strings*, e.g. `30 05 01`) -/
+theorem container_value_len_within (bs : Bytes) (c : Control) (n : Nat) (hu : bs.length + 1 < USIZE)
+    (hc : control bs = .ok c) (hic : c.vt.isContainer = true) (h : containerValueLen bs c = .ok n) :
+    hdrLen c + n ≤ bs.length :=
+  containerValueLen_within bs c n hu hc hic h
+
+example : control [0x15, 0x24, 0x01, 0x05, 0x18, 0xff] = .ok ⟨.anon, .cont .struct⟩ ∧
+    containerValueLen [0x15, 0x24, 0x01, 0x05, 0x18, 0xff] ⟨.anon, .cont .struct⟩ = .ok 4 := by decide
+
 /-- `raw_value()` is a contiguous sub-slice of the input -/
 theorem raw_value_within (bs v : Bytes) (h : rawValue bs = .ok v) : v <:+: bs := by
   unfold rawValue at h
@@ -259,65 +271,174 @@ example : reencode [0x15, 0x24, 0x01, 0x05, 0x18, 0xff, 0xff] = .ok [0x15, 0x24,
 example : reencode (encode (.cont .anon .array (.cons (.leaf .anon (.str .w8 [7])) .nil))) =
     .ok (encode (.cont .anon .array (.cons (.leaf .anon (.str .w8 [7])) .nil))) := by decide
 
+/-! ### the iterator-based re-encoding (`elem.tlv_iter(tag)` through `TLV::bytes_iter`) versus `to_tlv`
+
+For ARBITRARY input.  `headIsEnd bs`: the head element is an end-of-container marker;
+`utf8Clean bs`: no token of the element (itself, children, grandchildren …) is a UTF-8 string
+whose payload `utf8()` rejects.  Both are decidable predicates on the bytes
+(`Lemmas/TlvReencIter.lean`). -/
+
+/-- **The two re-encoders agree.**  Whenever `to_tlv` succeeds on an input whose head is not an
+end-of-container element, the iterator-based re-encoding produces the *same bytes* — unless a UTF-8
+string token inside carries invalid UTF-8, in which case (and only then) it fails with
+`TLVTypeMismatch`, because `TLVElement::value()` validates what `raw_value()` only copies. -/
+theorem reencode_iter_agrees (bs out : Bytes) (hu : bs.length + 1 < USIZE) (hend : headIsEnd bs = false)
+    (h : reencode bs = .ok out) :
+    reencodeIter bs = if utf8Clean bs then .ok out else .err .mismatch :=
+  reencodeIter_of_reencode bs out hu h hend
+
+-- the hypotheses are satisfiable, in both branches of the conclusion
+example : ∃ bs out : Bytes, bs.length + 1 < USIZE ∧ headIsEnd bs = false ∧ reencode bs = .ok out ∧
+    utf8Clean bs = true ∧ reencodeIter bs = .ok out :=
+  ⟨[0x15, 0x36, 0x01, 0x2c, 0x02, 0x02, 0xc3, 0xa9, 0x18, 0x18, 0xff], [0x15, 0x36, 0x01, 0x2c, 0x02, 0x02, 0xc3, 0xa9, 0x18, 0x18],
+    by decide, by decide, by decide, by decide, by decide⟩
+example : ∃ bs out : Bytes, bs.length + 1 < USIZE ∧ headIsEnd bs = false ∧ reencode bs = .ok out ∧
+    utf8Clean bs = false ∧ reencodeIter bs = .err .mismatch :=
+  ⟨[0x15, 0x2c, 0x02, 0x01, 0x80, 0x18], [0x15, 0x2c, 0x02, 0x01, 0x80, 0x18], by decide, by decide, by decide, by decide,
+    by decide⟩
+
+/-- … in the plain form: same bytes when every UTF-8 token is valid -/
+theorem reencode_iter_agrees_ok (bs out : Bytes) (hu : bs.length + 1 < USIZE) (hend : headIsEnd bs = false)
+    (hclean : utf8Clean bs = true) (h : reencode bs = .ok out) : reencodeIter bs = .ok out :=
+  reencodeIter_eq_reencode bs out hu hend hclean h
+
+/-- an error of `to_tlv` is the error of the iterator-based re-encoding (no hypothesis) -/
+theorem reencode_iter_err (bs : Bytes) (e : Err) (h : reencode bs = .err e) : reencodeIter bs = .err e :=
+  reencodeIter_of_reencode_err bs e h
+
+example : reencode [0x15, 0x38, 0x01, 0x18] = .err .invalidData := by decide
+
+/-- **Converse.**  If the iterator-based re-encoding succeeds on a non-empty input whose head is not
+an end-of-container element, then `to_tlv` succeeds with the same bytes, these are exactly the first
+`container_len()` bytes of the input, and every UTF-8 token inside is valid. -/
+theorem reencode_iter_bytes (bs out : Bytes) (hne : bs ≠ []) (hu : bs.length + 1 < USIZE)
+    (hend : headIsEnd bs = false) (h : reencodeIter bs = .ok out) :
+    reencode bs = .ok out ∧ utf8Clean bs = true ∧ ∃ n, containerLen bs = .ok n ∧ n ≤ bs.length ∧ out = bs.take n := by
+  obtain ⟨h1, h2, n, h3, h4⟩ := reencodeIter_take bs out hne hu h hend
+  exact ⟨h2, h1, n, h3, len_within bs n h3, h4⟩
+
+example : reencodeIter [0x15, 0x24, 0x01, 0x05, 0x18, 0xff, 0xff] = .ok [0x15, 0x24, 0x01, 0x05, 0x18] ∧
+    headIsEnd [0x15, 0x24, 0x01, 0x05, 0x18, 0xff, 0xff] = false := by decide
+
+/-- without any hypothesis: a success of the iterator-based re-encoding implies a success of `to_tlv` -/
+theorem reencode_iter_implies_reencode (bs out : Bytes) (h : reencodeIter bs = .ok out) :
+    ∃ out', reencode bs = .ok out' :=
+  reencode_of_reencodeIter bs out h
+
+/-- the complete relation as one equation: `reencodeIter` is a function of `reencode`, `headIsEnd`
+and `utf8Clean` (`reencodeIterSpec`) -/
+theorem reencode_iter_spec (bs : Bytes) (hu : bs.length + 1 < USIZE) : reencodeIter bs = reencodeIterSpec bs :=
+  reencodeIter_eq_spec bs hu
+
+/-- **The side conditions cannot be dropped.**  On an end-of-container element at the head the two
+re-encoders both succeed and *differ* (`tlv_iter` emits control byte and tag only, `to_tlv` appends a
+non-empty `raw_value()`); and the unconditional agreement is false already for a one-element input. -/
+theorem reencode_iter_end_differs (bs out : Bytes) (h : reencode bs = .ok out) (hend : headIsEnd bs = true) :
+    ∃ c payload, control bs = .ok c ∧ rawValue bs = .ok payload ∧ payload ≠ [] ∧
+      reencodeIter bs = .ok (bs.take (hdrLen c)) ∧ out = bs.take (hdrLen c) ++ payload :=
+  reencodeIter_of_reencode_end bs out h hend
+
+example : reencode [0x18, 0x18] = .ok [0x18, 0x18] ∧ headIsEnd [0x18, 0x18] = true ∧
+    reencodeIter [0x18, 0x18] = .ok [0x18] := by decide
+
+theorem reencode_iter_unconditional_false :
+    ¬ ∀ bs out : Bytes, bs.length + 1 < USIZE → reencode bs = .ok out → reencodeIter bs = .ok out :=
+  reencodeIter_eq_reencode_unconditional_false
+
+/-- **On the writer's output** (followed by arbitrary bytes) both re-encoders give the written bytes
+back, for every well-formed tree of any depth -/
+theorem reencode_iter_written (v : Value) (rest : Bytes) (hw : v.wf) (hl : (encode v).length + 1 < USIZE) :
+    reencodeIter (encode v ++ rest) = .ok (encode v) ∧ reencode (encode v ++ rest) = .ok (encode v) :=
+  ⟨reencodeIter_encode v rest hw hl, reencode_encode v rest hw hl⟩
+
+/-- `seq.tlv_iter()` over the content of a written container yields exactly the flattened TLV tokens
+of the children (`Values.toks`: start token, tokens of the children, anonymous `EndCnt`, recursively),
+whose `bytes_iter` concatenation is the written content -/
+theorem tlv_iter_written (cs : Values) (rest : Bytes) (hw : cs.wf) (hl : (encodes cs).length + 1 < USIZE) :
+    tlvElements (encodes cs ++ endByte :: rest) = cs.toks.map .ok ∧ cs.toks.flatMap tlvBytes = encodes cs :=
+  ⟨tlvElements_encodes cs rest hw hl, Values.toks_bytes cs⟩
+
+-- the hypotheses are satisfiable (nested containers, a valid two-byte UTF-8 string)
+example :
+    let v : Value := .cont .anon .struct (.cons (.leaf (.ctx 255) (.sint .w8 (-9223372036854775808)))
+      (.cons (.cont (.fullQual64 65535 65535 4294967295) .list (.cons (.leaf .anon (.utf8 .w2 [0xc3, 0xa9])) .nil))
+      (.cons (.leaf (.implPrf32 7) (.str .w8 [1, 2, 3])) .nil)))
+    v.wf ∧ (encode v).length + 1 < USIZE ∧ reencodeIter (encode v ++ [0xff]) = .ok (encode v) := by
+  refine ⟨by simp [Value.wf, Values.wf, Tag.wf, Prim.wf, Width.bytes]; decide, by decide, by decide⟩
+
 
 /-! ## 7. derived structures (schema-directed model of `#[derive(FromTLV, ToTLV)]`) -/
 section derived
 open TlvSchema
 
-def itemTag : Item → Nat
-  | .field f => f.tag
-  | .group tag _ _ => tag
+/-- **Derived structures, full statement (proved).**  For every well-formed schema `ty`
+(`Ty.wf`: in every structure at every nesting depth the context tags are pairwise different and
+below 256) — fields of type `u8/u16/u32/u64` (also `NonZero`, unit enums, bit flags), `bool`, octet
+and UTF-8 strings (borrowed or with a capacity), **nested structures / lists**, **arrays of integers
+or of structures** (with or without capacity), each optional and/or nullable — and every value `val`
+the derived encoder accepts (`toValue ty val = some v`: the value inhabits the Rust type), the
+derived decoder applied to the encoder's bytes, followed by arbitrary bytes, returns exactly `val`:
+`Option::None` stays absent, `Nullable` null stays null, integers come back whatever width the
+writer chose, nested structures and array items recursively.  By mutual structural induction over
+`Ty` / `Fields` (`Lemmas/TlvSchema.lean`: `decodeVal_encode`, `decodeFields_encode`). -/
+theorem struct_roundtrip_full (ty : Ty) (val : Val) (v : Value) (rest : Bytes) (hty : ty.wf)
+    (hv : toValue ty val = some v) (hl : (encode v).length + 1 < USIZE) :
+    decodeStruct ty (encode v ++ rest) = .ok val :=
+  struct_roundtrip ty val v rest hty hv hl
 
-/-- well-formed schema: pairwise different context tags below 256, also inside nested structures -/
-def SchemaWf (s : Schema) : Prop :=
-  (s.items.map itemTag).Nodup ∧
-  ∀ i ∈ s.items, itemTag i < 256 ∧
-    match i with
-    | .field _ => True
-    | .group _ _ fs => (fs.map (·.tag)).Nodup ∧ ∀ f ∈ fs, f.tag < 256
+/-- … in particular for the exact output of the derived encoder -/
+theorem struct_roundtrip_exact (ty : Ty) (val : Val) (b : Bytes) (hty : ty.wf)
+    (hv : encodeStruct ty val = some b) (hl : b.length + 1 < USIZE) :
+    decodeStruct ty b = .ok val := by
+  unfold encodeStruct at hv
+  cases h : toValue ty val with
+  | none => simp [h] at hv
+  | some v =>
+    simp only [h, Option.map_some, Option.some.injEq] at hv; subst hv
+    have := struct_roundtrip_full ty val v [] hty h hl
+    simpa using this
 
-/-- the full statement for the schema language (including nested structures): **not proved** -/
-def struct_roundtrip_full : Prop :=
-  ∀ (s : Schema) (slots : List Slot) (v : Value), SchemaWf s → toValue s slots = some v →
-    decodeStruct s (encode v) = .ok slots
+/-- what the derived encoder writes is a well-formed value tree under the requested tag, so that
+`decode_encode` (section 5) applies to it as well -/
+theorem struct_encodes_wf (ty : Ty) (val : Val) (v : Value) (hty : ty.wf) (hv : toValue ty val = some v) : v.wf :=
+  (encodeVal_shape ty false .anon val v hty trivial hv).1
 
-/-- **proved part**: every schema without nested structures.  For fields of type
-`u8/u16/u32/u64/bool`, optional and/or nullable, with pairwise different tags `< 256`, in a struct,
-list or array container: the derived decoder applied to the bytes of the derived encoder returns
-the encoded field values (`Option::None` stays absent, `Nullable` null stays null, integers come
-back whatever width the writer chose). -/
-theorem struct_roundtrip_partial (k : Kind) (fs : List Field) (slots : List Slot) (v : Value)
-    (ht : ∀ f ∈ fs, f.tag < 256) (hnd : (fs.map (·.tag)).Nodup)
-    (hv : toValue ⟨k, fs.map .field⟩ slots = some v) :
-    decodeStruct ⟨k, fs.map .field⟩ (encode v) = .ok slots :=
-  struct_roundtrip_flat k fs slots v ht hnd hv
+/-- the real wire structures of stream `s` (all of `TlvSchema.named`) are well-formed schemas, so the
+theorem applies to the schemas the correspondence check ties to the Rust declarations -/
+def realNames : List String :=
+  ["AttrPath", "CmdPath", "EventPath", "ClusterPath", "EventFilter", "TimedReq", "Target", "DataVersionFilter",
+   "Status", "StatusResp", "SessionParameters", "PBKDFParamReq", "PBKDFParamResp", "Pake1", "Pake2", "Pake3",
+   "Sigma1Req", "Sigma2Resp", "TBEData2Decrypt", "Sigma3Decrypt", "Sigma2ResumeMsg", "AclEntry", "Fabric",
+   "AttrStatus", "AttrData", "AttrResp", "CmdStatus", "CmdData", "CmdResp"]
 
-/-- the seven real wire structures of stream `s` without nesting satisfy the hypotheses, so the
-theorem applies to the schemas the correspondence check ties to `AttrPath`, `CmdPath`, `EventPath`,
-`ClusterPath`, `EventFilter`, `TimedReq`, `Target` -/
-theorem real_flat_schemas :
-    ∀ name ∈ ["AttrPath", "CmdPath", "EventPath", "ClusterPath", "EventFilter", "TimedReq", "Target"],
-      ∃ (k : Kind) (fs : List Field), named name = some ⟨k, fs.map .field⟩ ∧ (∀ f ∈ fs, f.tag < 256) ∧
-        (fs.map (·.tag)).Nodup := by
+theorem real_schemas_wf : ∀ name ∈ realNames, ∃ ty, named name = some ty ∧ ty.wf := by
   intro name hn
-  simp only [List.mem_cons, List.mem_nil_iff, or_false] at hn
-  rcases hn with rfl | rfl | rfl | rfl | rfl | rfl | rfl
-  · exact ⟨.list, [⟨0, .bool, true, false⟩, ⟨1, .u64, true, false⟩, ⟨2, .u16, true, false⟩, ⟨3, .u32, true, false⟩,
-      ⟨4, .u32, true, false⟩, ⟨5, .u16, true, true⟩], rfl, by decide, by decide⟩
-  · exact ⟨.list, [⟨0, .u16, true, false⟩, ⟨1, .u32, true, false⟩, ⟨2, .u32, true, false⟩], rfl, by decide, by decide⟩
-  · exact ⟨.list, [⟨0, .u64, true, false⟩, ⟨1, .u16, true, false⟩, ⟨2, .u32, true, false⟩, ⟨3, .u32, true, false⟩,
-      ⟨4, .bool, true, false⟩], rfl, by decide, by decide⟩
-  · exact ⟨.list, [⟨0, .u64, true, false⟩, ⟨1, .u16, false, false⟩, ⟨2, .u32, false, false⟩], rfl, by decide, by decide⟩
-  · exact ⟨.struct, [⟨0, .u64, true, false⟩, ⟨1, .u64, true, false⟩], rfl, by decide, by decide⟩
-  · exact ⟨.struct, [⟨0, .u16, false, false⟩, ⟨Consts.imRevisionTag, .u8, true, false⟩], rfl, by decide, by decide⟩
-  · exact ⟨.struct, [⟨0, .u32, true, false⟩, ⟨1, .u16, true, false⟩, ⟨2, .u32, true, false⟩], rfl, by decide, by decide⟩
+  simp only [realNames, List.mem_cons, List.mem_nil_iff, or_false] at hn
+  rcases hn with rfl | rfl | rfl | rfl | rfl | rfl | rfl | rfl | rfl | rfl | rfl | rfl | rfl | rfl | rfl | rfl |
+    rfl | rfl | rfl | rfl | rfl | rfl | rfl | rfl | rfl | rfl | rfl | rfl | rfl <;>
+  exact ⟨_, rfl, Ty.wf_of_wfb _ (by decide)⟩
 
--- the hypothesis `toValue … = some v` is satisfiable: an `AttrPath` with an absent, a null and present fields
-example : ∃ v, toValue ⟨.list, [⟨0, .bool, true, false⟩, ⟨1, .u64, true, false⟩, ⟨5, .u16, true, true⟩].map .field⟩
-    [.bool true, .absent, .null] = some v ∧
-    decodeStruct ⟨.list, [⟨0, .bool, true, false⟩, ⟨1, .u64, true, false⟩, ⟨5, .u16, true, true⟩].map .field⟩ (encode v)
-      = .ok [.bool true, .absent, .null] :=
-  ⟨_, rfl, by decide⟩
+-- the hypotheses are satisfiable: an `AclEntry` with a nullable array of integers, an array of
+-- nested structures, an absent enum and the fabric index
+example : (do
+    let ty ← named "AclEntry"
+    let v ← toValue ty (.obj (.cons (.val (.num 5)) (.cons (.val (.num 2))
+      (.cons (.val (.arr (.cons (.num 1) (.cons (.num 300) .nil))))
+      (.cons (.val (.arr (.cons (.obj (.cons .absent (.cons (.val (.num 1)) (.cons (.val (.num 2)) .nil)))) .nil)))
+      (.cons .absent (.cons (.val (.num 1)) .nil)))))))
+    pure (decide ((encode v).length + 1 < USIZE) && decodeStruct ty (encode v) == .ok (.obj (.cons (.val (.num 5)) (.cons (.val (.num 2))
+      (.cons (.val (.arr (.cons (.num 1) (.cons (.num 300) .nil))))
+      (.cons (.val (.arr (.cons (.obj (.cons .absent (.cons (.val (.num 1)) (.cons (.val (.num 2)) .nil)))) .nil)))
+      (.cons .absent (.cons (.val (.num 1)) .nil))))))))) = some true := by decide
+
+-- a `PBKDFParamReq` with an octet string, a boolean and an optional nested `SessionParameters`
+example : (do
+    let ty ← named "PBKDFParamReq"
+    let x := Val.obj (.cons (.val (.bytes [1, 2])) (.cons (.val (.num 1)) (.cons (.val (.num 0)) (.cons (.val (.bool false))
+      (.cons (.val (.obj (.cons .absent (.cons (.val (.num 500)) (.cons .absent (.cons .absent (.cons .absent
+        (.cons .absent (.cons .absent .nil))))))))) .nil)))))
+    let v ← toValue ty x
+    pure (decodeStruct ty (encode v) == .ok x)) = some true := by decide
 
 end derived
 
